@@ -105,6 +105,8 @@ def run(ctx, rep):
     parity_read_valid_rule(P, rep, 'R-C17-2r')
     create_accepts_damaged_size_rule(P, rep, 'R-C17-2c')
     chsize_domain_rule(P, rep, 'R-C17-3d', ctx.tier)
+    truncate_as_one_parity_rule(P, rep, 'R-C17-10')
+    fix_keeps_layout_rule(P, rep, 'R-C17-9')
     grow_rule(P, rep, 'R-C17-5')
     offset_width_rule(P, rep, 'R-C17-1w')
     # parity_chsize itself is decided semantically by R-C17-3d (domain interpretation); no expression-shape rules on it
@@ -243,6 +245,108 @@ def handle_valid_size_rules(P, rep, rid):
                 rep.check(ok, rid, '%s: %s = %s (%s)' % (base(f.name), tgt, val, kind), i.loc(), '' if ok else 'assignment that can lower the valid size of an open data file', function=base(f.name), construct='handle valid_size %s' % kind)
                 rep.analysed(f)
     return n
+
+
+def truncate_as_one_parity_rule(P, rep, rid):
+    """at the end of fix parity_truncate() cuts away what is known not to be valid parity.  For a single parity file that is the tail
+    after the last block written or read back.  Split over several files the parity must behave as that one file: only the part
+    AFTER the global valid end may go -- a split that lies before it keeps its recorded size even when its own last positions belong
+    to no file and were never written (otherwise the file is shorter than the layout says: the next check reports `Missing data`,
+    sync refuses the parity, and fix repeats the same thing).  parity_truncate is interpreted (ftruncate recorded) for every pattern
+    of sizes {0,4,8} and valid sizes {0,4,size} of up to 3 splits."""
+    from .. import region as RG
+    import itertools
+    rep.rule(rid, 'parity_truncate over an exhaustive small domain: each split before the one where the valid parity ends keeps its size, the one where it ends is cut at its valid size, the later ones at 0 (the split parity is truncated like one file)', 250)
+    f = P.fn('parity_truncate')
+    rep.analysed(f)
+    dh = P.distructs.get('snapraid_parity_handle'); dsp = P.distructs.get('snapraid_split_handle')
+    if not dh or not dsp:
+        raise AnalysisBroken('parity layouts not found')
+    def off(d, name):
+        return [m for m in d['members'] if m['name'] == name][0]['off']
+    H_MAC, H_MAP = off(dh, 'split_mac'), off(dh, 'split_map')
+    S_SIZE, S_VALID, S_F = off(dsp, 'size'), off(dsp, 'valid_size'), off(dsp, 'f')
+    bad = None
+    nrun = 0
+    for mac in (1, 2, 3):
+        for sizes in itertools.product((0, 4, 8), repeat=mac):
+            for valid in itertools.product(*[sorted({0, min(4, sz), sz}) for sz in sizes]):
+                cuts = {}
+                def ext(ins, args):
+                    if ins.callee in ('ftruncate', 'ftruncate64'):
+                        cuts[args[0]] = RG.signed(args[1], 64)
+                        return (0,)
+                    if ins.callee in ('log_fatal', 'log_error', 'strerror', '__errno_location'):
+                        return (0,)
+                    return None
+                R = RG.Region(P, extern=ext)
+                hp = RG.P_(('obj', 'handle'), 0)
+                R.mem[(hp.reg, H_MAC)] = mac
+                for k in range(mac):
+                    b = H_MAP + k * dsp['size']
+                    R.mem[(hp.reg, b + S_SIZE)] = sizes[k]
+                    R.mem[(hp.reg, b + S_VALID)] = valid[k]
+                    R.mem[(hp.reg, b + S_F)] = 100 + k
+                try:
+                    R.run(f, 0, [hp])
+                except RG.Unsupported as e:
+                    raise AnalysisBroken('cannot interpret parity_truncate: %s' % e)
+                nrun += 1
+                used = [k for k in range(mac) if valid[k] != 0]
+                last = used[-1] if used else 0
+                want = {100 + k: (sizes[k] if k < last else valid[k]) for k in range(mac)}
+                if cuts != want and bad is None:
+                    k = [k for k in range(mac) if cuts.get(100 + k) != want[100 + k]][0]
+                    bad = 'split sizes %s, valid up to %s: split %d is cut to %s bytes, as one file the parity is valid up to split %d and this split must keep %d -- its last positions belong to no file, fix never writes them, and the file ends shorter than the recorded layout (check: Missing data; sync: parity smaller than expected; a second fix changes nothing)' % (
+                        list(sizes), list(valid), k, cuts.get(100 + k), last, want[100 + k])
+    if bad:
+        rep.fail(rid, 'parity_truncate as one parity', f.file, bad, function='parity_truncate', construct='split cut inside the valid parity')
+    else:
+        for _ in range(nrun):
+            rep.ok(rid, 'size pattern')
+
+
+def fix_keeps_layout_rule(P, rep, rid):
+    """fix never saves the content file: whatever layout parity_chsize() produces there lives in that run only.  When a lost split
+    cannot be restored to its recorded size, parity_chsize lets the following splits absorb the rest -- legitimate in sync, which
+    records the new sizes before writing -- and fix would rebuild parity at positions no later command looks at.  Rule: in
+    state_check the result of the parity_chsize call is examined: a conditional branch that depends on the is_modified output or on
+    the split sizes after the call has a side from which the function cannot continue (exit)."""
+    from .C09 import dead_blocks
+    rep.rule(rid, 'state_check (fix): the split sizes produced by parity_chsize are compared with the recorded ones (or is_modified is tested) and a different layout stops the command before anything is written', 1)
+    f = P.fn('state_check')
+    rep.analysed(f)
+    cs = list(f.calls('parity_chsize'))
+    if len(cs) != 1:
+        raise AnalysisBroken('state_check: the parity_chsize call was not found')
+    c = cs[0]
+    dead = dead_blocks(f)
+    lp = f.loop_of(c.block)
+    after = f.reach([c], stop={f.blocks[lp][0].id} if lp is not None else ())      # the rest of this parity level's iteration
+    ok = False
+    how = ''
+    # (a) is_modified output tested
+    imo = f.strip(c.ops[2]) if len(c.ops) > 2 else None
+    for b in range(len(f.blocks)):
+        t = f.term(b)
+        if t.op != 'br' or len(t.ops) != 3 or t.id not in after:
+            continue
+        if not (t.ops[1][1] in dead or t.ops[2][1] in dead):
+            continue
+        src = f.value_sources(t.ops[0]) if hasattr(f, 'value_sources') else []
+        e = f.xexpr(t.ops[0])
+        if imo is not None and imo[0] == 'i' and f.insts[imo[1]].op == 'alloca' and (f.insts[imo[1]].var or '?') in e:
+            ok = True; how = 'is_modified tested at line %s' % t.line
+        for x in src:
+            if x[0] == 'call' and x[1] != c.callee and P.has(x[1]):
+                g = P.fn(x[1])
+                if any('split_map' in g.expr(i.ops[0]) and g.expr(i.ops[0]).endswith('.size') for i in g.all_insts() if i.op == 'load'):
+                    ok = True; how = 'layout compared by %s() at line %s' % (x[1], t.line)
+            if x[0] == 'mem' and 'split_map' in x[1] and x[1].endswith('.size'):
+                ok = True; how = 'split sizes compared at line %s' % t.line
+    rep.check(ok, rid, 'state_check: layout after parity_chsize vs the recorded one', c.loc(),
+              how if ok else 'the call passes no is_modified and nothing after it looks at the split sizes: when a lost split gets less room than recorded, the rest of the parity is written into the following splits according to a layout that is never saved -- fix reports the parity recovered, every later command looks for it at the recorded positions and does not find it',
+              function='state_check', construct='layout not compared after parity_chsize')
 
 
 def chsize_domain_rule(P, rep, rid, tier='quick'):
@@ -408,37 +512,44 @@ def offset_width_rule(P, rep, rid):
     """file offsets are 64-bit quantities: in the block transfer primitives the offset handed to pread / pwrite must not come out of a
     32-bit multiplication (position * block size overflows at 4 GiB and is widened too late)"""
     rep.rule(rid, 'block transfer primitives compute position * block_size in 64 bits (no 32-bit multiply, add or shift widened afterwards feeds the offset of pread / pwrite)', 4)
+    from .C05 import locate_in_helpers
     for fn, prim in (('handle_read', 'pread'), ('handle_write', 'pwrite'), ('parity_read', 'pread'), ('parity_write', 'pwrite')):
-        f = P.fn(fn)
+        root = P.fn(fn)
+        f = locate_in_helpers(P, root, lambda g_: any(True for _ in g_.calls(prim))) or root
         rep.analysed(f)
         cs = list(f.calls(prim))
         if not cs:
             raise AnalysisBroken('%s: %s call not found' % (fn, prim))
         narrow = []
         seen = set()
-        def walk(o, depth=0):
-            o = f.strip(o) if False else o
-            if o[0] != 'i' or o[1] in seen or depth > 40:
+        def walk(g, o, depth=0):
+            if o[0] == 'a' and g is not root:
+                # a parameter of the helper that performs the transfer: follow it to the call sites in the primitive
+                for x in root.calls():
+                    if x.callee_full == g.name and o[1] < len(x.ops):
+                        walk(root, x.ops[o[1]], depth + 1)
                 return
-            seen.add(o[1])
-            i = f.insts[o[1]]
+            if o[0] != 'i' or (g.name, o[1]) in seen or depth > 40:
+                return
+            seen.add((g.name, o[1]))
+            i = g.insts[o[1]]
             if i.op in ('zext', 'sext'):
-                src = f.inst_of(i.ops[0])
+                src = g.inst_of(i.ops[0])
                 if src is not None and src.op in ('mul', 'shl') and (src.ty or '') in ('i32', 'i16'):
-                    narrow.append('%s computed as %s in %s and widened afterwards' % (f.expr(['i', i.id]), src.op, src.ty))
+                    narrow.append('%s computed as %s in %s and widened afterwards' % (g.expr(['i', i.id]), src.op, src.ty))
             if i.op == 'load':
-                a = f.strip(i.ops[0])
-                if a[0] == 'i' and f.insts[a[1]].op == 'alloca':
-                    for u in f.users.get(a[1], ()):
-                        if u.op == 'store' and f.strip(u.ops[1]) == a:
-                            walk(u.ops[0], depth + 1)
+                a = g.strip(i.ops[0])
+                if a[0] == 'i' and g.insts[a[1]].op == 'alloca':
+                    for u in g.users.get(a[1], ()):
+                        if u.op == 'store' and g.strip(u.ops[1]) == a:
+                            walk(g, u.ops[0], depth + 1)
                 return
             if i.op == 'call':
                 return
             for x in i.ops:
-                walk(x, depth + 1)
+                walk(g, x, depth + 1)
         for c in cs:
-            walk(c.ops[3])
+            walk(f, c.ops[3])
         rep.check(not narrow, rid, '%s: offset of %s' % (fn, prim), cs[0].loc(), '64-bit arithmetic' if not narrow else narrow[0] + ': blocks beyond 4 GiB of a file are read / written at the wrong place', function=fn, construct='offset width')
 
 
